@@ -97,7 +97,7 @@ CHECKS = {
         assumptions=["a 'slow' store / consumer / OpenStream call returns after <= 60 ms (a store that never returns is outside 'bounded time')",
                      "in rebalance-window states the durability clause is not asserted: the stream forgets unsaved positions when a rebalance closes it (they are re-delivered)",
                      "rollback mitigation on => health check off (the simulated node has no management endpoint for Ping)"],
-        units=[rapid("TestC13_Shutdown", 1, 1, 4, 16), plain("TestC13_KnownFindings"), plain("TestC13_StartStop"), plain("TestC13_Fixed")],
+        units=[rapid("TestC13_Shutdown", 1, 1, 4, 16), plain("TestC13_KnownFindings"), plain("TestC13_StartStop"), plain("TestC13_Fixed"), rapid("TestC13_SerialCloseReal", 24, 600, 4, 16)],
     ),
     "C15": dict(
         level="fault_enumeration",
